@@ -500,8 +500,11 @@ def gen_routing_scenario(rng, max_ops=40):
             ops.append(['S', rng.choice(sorted(live)), rng.choice([1, 1, 2, 3, 5])])
         elif r < 88:
             ops.append(['C', rng.choice([1, 1, 2, 3, 9])])
-        elif r < 94:
+        elif r < 93:
             ops.append(['M', rng.choice([2, 3, 9])])
+        elif r < 96 and [h for h in live if live[h][0] != 'bis']:
+            # Disconnection Complete with a FAILURE status: the link stays up, nothing is discarded or credited
+            ops.append(['Z', rng.choice(sorted(h for h in live if live[h][0] != 'bis')), rng.choice([0x0C, 0x02, 0x1F])])
         else:
             ops.append(['R', rng.choice(pool + [0x0EEE]), rng.choice([0, 1, 2, 7])])
     ops.append(['C', 999])
@@ -668,6 +671,8 @@ def run_routing_scenario(sc):
                     for h, c in zip(hs, cs):
                         mops.append(f'HDone {c} {h}')
                     report(hs, cs)
+            elif o[0] == 'Z':
+                ctl.send_hci_packet(hci.HCI_Disconnection_Complete_Event(status=o[2], connection_handle=o[1], reason=0x13))
             else:
                 # a report the controller should not send (nothing held is released): stale / duplicate / unknown handle
                 mops.append(f'HDone {o[2]} {o[1]}')
@@ -738,6 +743,9 @@ CORPUS_ROUTING = [
     {'geom': {'acl_count': 4, 'le_count': 2, 'iso_count': 2},
      'ops': [['O', 'bis', [16], 1, 'create'], ['S', 16, 3], ['C', 9], ['X', 'bis', 1, 'terminate'], ['O', 'l', [16]],
              ['S', 16, 5], ['C', 999]]},
+    # seeded C04-g: a FAILED disconnection of the link that holds the buffers must not release its credits
+    {'geom': {'acl_count': 4, 'le_count': 2, 'iso_count': 1},
+     'ops': [['O', 'l', [1]], ['O', 'l', [2]], ['S', 1, 2], ['S', 2, 2], ['Z', 1, 0x0C], ['C', 999]]},
     # seeded C16-e: a link closed while all its packets are still queued behind another link's
     {'geom': {'acl_count': 4, 'le_count': 2, 'iso_count': 1},
      'ops': [['O', 'l', [1]], ['O', 'l', [2]], ['S', 1, 2], ['S', 2, 2], ['X', 'l', 2], ['C', 9], ['S', 1, 1], ['C', 999]]},
